@@ -340,7 +340,10 @@ func cycleFamily() []gcase {
 }
 
 // a random graph: containers may refer to any container or host object made so far (and to themselves)
-func (r *rng) randomGraph() *graph {
+func (r *rng) randomGraph() *graph { return r.randomGraphK(0) }
+
+// with k > 0 the root is a tuple of k random values drawn from one pool of shareable containers (a stream of k values)
+func (r *rng) randomGraphK(k int) *graph {
 	g := &graph{}
 	var shareable []val
 	var make_ func(depth int, hashable bool) val
@@ -414,6 +417,18 @@ func (r *rng) randomGraph() *graph {
 			g.heap[a].xs = xs
 			return vr(a)
 		}
+	}
+	if k > 0 {
+		var xs []val
+		for i := 0; i < k; i++ {
+			if len(shareable) > 0 && r.chance(1, 3) { // an earlier value's container again, as a later value of the stream
+				xs = append(xs, shareable[r.below(len(shareable))])
+			} else {
+				xs = append(xs, make_(1+r.below(4), false))
+			}
+		}
+		g.root = g.add(obj{k: 'T', xs: xs})
+		return g
 	}
 	g.root = make_(2+r.below(4), false)
 	return g
